@@ -224,7 +224,7 @@ func groupOf(keys []string, a *Arrival) (string, map[string][]string) {
 }
 
 type batchRec struct {
-	at    time.Time
+	at    time.Duration // vnow() at sink entry
 	items []pitems.Item
 	count int // as the processor counts: records / spans / data points
 	md    map[string][]string
@@ -241,7 +241,7 @@ type sink struct {
 }
 
 func (k *sink) consume(ctx context.Context, v any) error {
-	rec := &batchRec{at: time.Now(), items: sig.Items(v), count: sig.Count(v), md: map[string][]string{}}
+	rec := &batchRec{at: vnow(), items: sig.Items(v), count: sig.Count(v), md: map[string][]string{}}
 	md := client.FromContext(ctx).Metadata
 	for key := range md.Keys() {
 		rec.md[key] = md.Get(key)
@@ -335,7 +335,7 @@ type arrRec struct {
 	items    []pitems.Item
 	origin   map[int64]origin
 	err      error
-	returned time.Time
+	returned time.Duration // vnow() when Consume returned
 }
 
 func run(s Script) (bool, string, *vt.Finding) { return runWith(cMain, s) }
@@ -412,12 +412,12 @@ func runInner(c *vt.C, s *Script) (nontrivial bool, f *vt.Finding) {
 					ctx = client.NewContext(ctx, client.Info{Metadata: client.NewMetadata(r.a.MD)})
 				}
 				r.err = consume(ctx, r.a.Data)
-				r.returned = time.Now()
+				r.returned = vnow()
 			}
 		}(p, mine)
 	}
 	wg.Wait()
-	lastReturn := time.Now()
+	lastReturn := vnow()
 
 	// accepted items per group
 	accepted := make([]int, len(groupVals))
@@ -433,17 +433,17 @@ func runInner(c *vt.C, s *Script) (nontrivial bool, f *vt.Finding) {
 	var timing *vt.Finding
 	hasTimer := s.TimeoutMS != 0 && s.Size != 0
 	if s.Settle {
-		var deadline time.Time
+		var deadline time.Duration
 		var cond func() bool // evaluated with k.mu held
 		var what, tsig string
 		switch {
 		case !hasTimer:
 			// timeout 0 ("sent immediately") or send_batch_size 0 ("size ignored, sent immediately")
-			deadline = lastReturn.Add(slack())
+			deadline = lastReturn + slack()
 			cond = func() bool { return k.total >= acceptedTotal }
 			what, tsig = "with timeout=0 or send_batch_size=0 everything accepted is sent immediately", "immediate-flush/timing"
 		case s.TimeoutMS == longTimeoutMS:
-			deadline = lastReturn.Add(slack())
+			deadline = lastReturn + slack()
 			cond = func() bool {
 				for g := range accepted {
 					if accepted[g]-k.emitted[g] >= s.Size {
@@ -454,7 +454,7 @@ func runInner(c *vt.C, s *Script) (nontrivial bool, f *vt.Finding) {
 			}
 			what, tsig = fmt.Sprintf(">= send_batch_size=%d items pending in a group must trigger a batch", s.Size), "size-flush/timing"
 		default:
-			deadline = lastReturn.Add(time.Duration(s.TimeoutMS)*time.Millisecond + slack())
+			deadline = lastReturn + time.Duration(s.TimeoutMS)*time.Millisecond + slack()
 			cond = func() bool { return k.total >= acceptedTotal }
 			what, tsig = fmt.Sprintf("pending items must be emitted within timeout=%dms", s.TimeoutMS), "timeout-flush/timing"
 		}
@@ -471,9 +471,9 @@ func runInner(c *vt.C, s *Script) (nontrivial bool, f *vt.Finding) {
 			if ok {
 				break
 			}
-			if time.Now().After(deadline) {
+			if vnow() > deadline {
 				timing = vt.Failf(tsig, "%s; %v after the last Consume returned still pending: %s (size=%d max=%d timeout=%dms keys=%v)",
-					what, time.Since(lastReturn).Round(time.Millisecond), strings.Join(pend, ", "), s.Size, s.Max, s.TimeoutMS, s.Keys)
+					what, (vnow() - lastReturn).Round(time.Millisecond), strings.Join(pend, ", "), s.Size, s.Max, s.TimeoutMS, s.Keys)
 				break
 			}
 			time.Sleep(200 * time.Microsecond)
@@ -529,7 +529,7 @@ func runInner(c *vt.C, s *Script) (nontrivial bool, f *vt.Finding) {
 				if acc[g] {
 					// possible in the unchanged code when two first arrivals of one combination race for the last slot; not part of the property as stated
 					c.Class("combination-both-admitted-and-refused(concurrent)")
-					if raceNotes.Add(1) <= 2 {
+					if raceNotes.Add(1) == 1 {
 						c.Note("observation outside the property as stated: with %d concurrent producers and metadata_cardinality_limit=%d the combination %s was admitted for one arrival and refused for another (first arrivals of one combination racing for the last slot: consume() misses the shard in its lock-free Load, then finds size >= limit under the lock without looking again)", len(s.Producers), s.Limit, groupNames[g])
 					}
 				}
@@ -621,8 +621,8 @@ func runInner(c *vt.C, s *Script) (nontrivial bool, f *vt.Finding) {
 		lim := time.Duration(s.TimeoutMS)*time.Millisecond + slack()
 		for bi, b := range batches {
 			for _, it := range b.items {
-				if r, ok := idArr[it.ID]; ok && r.err == nil && b.at.Sub(r.returned) > lim {
-					return true, vt.Failf("timeout-flush/timing", "item id=%d was emitted in batch %d %v after its Consume returned (timeout %dms)", it.ID, bi, b.at.Sub(r.returned), s.TimeoutMS)
+				if r, ok := idArr[it.ID]; ok && r.err == nil && b.at-r.returned > lim {
+					return true, vt.Failf("timeout-flush/timing", "item id=%d was emitted in batch %d %v after its Consume returned (timeout %dms)", it.ID, bi, b.at-r.returned, s.TimeoutMS)
 				}
 			}
 		}
